@@ -231,6 +231,41 @@ type Pool struct {
 	real  sync.Pool
 	items [poolCap]*poolItem
 	n     int
+	reg   bool
+}
+
+// Every pool used under simulation is registered so that Reset can empty it:
+// the content of a pool is process history, and a run must not depend on
+// history that is not part of its case (history is re-created explicitly by
+// executing other projects first).
+const maxPools = 256
+
+var (
+	allPools [maxPools]*Pool
+	nPools   int
+)
+
+//go:norace
+func registerPool(p *Pool) {
+	if p.reg {
+		return
+	}
+	p.reg = true
+	if nPools < maxPools {
+		allPools[nPools] = p
+		nPools++
+	}
+}
+
+//go:norace
+func clearPools() {
+	for i := 0; i < nPools; i++ {
+		p := allPools[i]
+		for k := 0; k < p.n; k++ {
+			p.items[k] = nil
+		}
+		p.n = 0
+	}
 }
 
 var (
@@ -244,7 +279,7 @@ var (
 )
 
 //go:norace
-func resetPoolStats() {}
+func resetPoolStats() { clearPools() }
 
 // SetPoolPolicy sets the pool policy and Put-drop probability of the run.
 //
@@ -300,6 +335,7 @@ func (p *Pool) Put(x interface{}) {
 
 //go:norace
 func poolChooseGet(p *Pool) *poolItem {
+	registerPool(p)
 	if schedOn {
 		Yield(sitePoolGet)
 	}
@@ -351,6 +387,7 @@ func poolChooseGet(p *Pool) *poolItem {
 
 //go:norace
 func poolAdmit(p *Pool) bool {
+	registerPool(p)
 	drop := 0
 	if poolDropProb > 0 && RandN(1000) < poolDropProb {
 		drop = 1
